@@ -21,7 +21,8 @@ def sync_summ(prog, excuse=None):
 
 
 def none_edges_of_field(fn, field):
-    """blocks entered on the `None` edge of a test of an Option-typed place ending in `.field`"""
+    """blocks entered on the `None` edge of a test of an Option whose value is (a reference to / as_ref() of) a place
+    ending in `.field`"""
     out = []
     for i, b in enumerate(fn.blocks):
         if b['c']:
@@ -33,25 +34,21 @@ def none_edges_of_field(fn, field):
         if l is None:
             continue
         for (bb, si, kind, r) in fn.defs().get(l, []):
-            if kind == 'assign' and r['k'] == 'discr':
-                names = core.place_fields(r['p'])
-                if names and names[-1] == field:
-                    for v, tgt in t['vals']:
-                        if v == 0:
-                            out.append(tgt)
-                    # `otherwise` is None when only Some(1) is listed
-                    if not any(v == 0 for v, _ in t['vals']) and all(v == 1 for v, _ in t['vals']):
-                        out.append(t['otherwise'])
-                else:
-                    # test on a reference to the field: (*_x) where _x = &place.field
-                    base = r['p'][0]
-                    for (b2, s2, k2, r2) in fn.defs().get(base, []):
-                        if k2 == 'assign' and r2['k'] == 'ref':
-                            n2 = core.place_fields(r2['p'])
-                            if n2 and n2[-1] == field:
-                                for v, tgt in t['vals']:
-                                    if v == 0:
-                                        out.append(tgt)
+            if not (kind == 'assign' and r['k'] == 'discr'):
+                continue
+            ty = core.place_type_str(fn, r['p']) or ''
+            if not ty.startswith('std::option::Option'):
+                continue
+            ogs = core.origins(fn, {'c': r['p']}, stop_fields=True)
+            if not any(o.kind == 'field' and o.data[1] == field for o in ogs):
+                continue
+            hit = False
+            for v, tgt in t['vals']:
+                if v == 0:
+                    out.append(tgt)
+                    hit = True
+            if not hit and all(v == 1 for v, _ in t['vals']):
+                out.append(t['otherwise'])
     return out
 
 
@@ -152,15 +149,15 @@ def s3(ctx, rid):
                 pushes = [p for p in f.calls if p.path.endswith('HierarchicalFilters::<Key, Filter, Child>::push') and any(op_local(a) in carry for a in p.args)]
                 for p in pushes:
                     n += 1
-                    ev = S.events(f)
-                    start = c.t['t']
-                    reach = f.reach_from([start], avoid_enter=ev)
+                    # a path through the None edge of an `active_blob` test has no blob to sync or retire
+                    ev = S.events(f) + none_edges_of_field(f, 'active_blob')
+                    reach = f.reach_from([0], avoid_enter=ev)
                     key = 'sync-before-retire|%s' % f.id
                     if p.bb in reach:
                         ctx.bad(rid, key, p.where(), 'the retired active blob reaches the closed list without an ok sync of its file',
-                                witness=['bb%d %s' % (b, f.where(b)) for b in (f.path([start], [p.bb], avoid_enter=ev) or [])])
+                                witness=['bb%d %s' % (b, f.where(b)) for b in (f.path([0], [p.bb], avoid_enter=ev) or [])])
                     else:
-                        ctx.ok(rid, key, p.where(), 'ok sync between take() of the active blob and its push to the closed list')
+                        ctx.ok(rid, key, p.where(), 'the push of the blob taken out of the active slot is dominated by an ok sync of the active blob file')
     if n == 0:
         raise core.AnchorLost('no take()->push flow of the active blob')
 
@@ -361,7 +358,7 @@ def s7(ctx, rid):
 RULES = [
     Rule('C12.S1', 'every ok-return of the blob constructor is preceded by the header append and then a completed ok file sync', s1, 2),
     Rule('C12.S2', 'every index dump / index-file construction call is dominated by an ok sync of the blob file (in the function or in every caller)', s2, 3),
-    Rule('C12.S3', 'between take() of the active blob and its push to the closed list an ok sync of its file is passed on every path', s3, 1),
+    Rule('C12.S3', 'where a blob taken (Option::take) out of the active slot is pushed to the closed list, that push is dominated by an ok sync of the active blob file', s3, 1),
     Rule('C12.S4', 'every ok-return of the public fsyncdata on which an active blob exists is preceded by an ok file sync', s4, 1),
     Rule('C12.S5', 'every append to the active blob feeds the dirty-byte check (on every path to the ok-return in the write path); every check controls a sync request on its true edge; the worker handler reaches a sync', s5, 5),
     Rule('C12.S6', 'the synced-size counter is only advanced by fetch_max after an ok sync_all, with a size captured before the sync', s6, 2),
